@@ -3,6 +3,7 @@
 //
 //	c17 edges <edges.ndjson> <seed> <walks> <walklen>   every explored transition + random walks over the emitted graph
 //	c17 hist  <hist.ndjson>                             simulated long behaviours (one JSON array of labels per line)
+//	c17 session <hist.ndjson>                           LspSession.tla behaviours on a real proxy.Server (session.go)
 package main
 
 import (
@@ -118,6 +119,8 @@ func main() {
 		edges(os.Args[2:])
 	case "hist":
 		hist(os.Args[2])
+	case "session":
+		session(os.Args[2])
 	default:
 		vhlib.Fatal("unknown mode %s", os.Args[1])
 	}
